@@ -42,7 +42,7 @@ DOTTED = [('os', 'os.path'), ('xml', 'xml.dom'), ('json', 'json.decoder'), ('ema
 
 class Gen(object):
     def __init__(self, rng, allow_return=True, allow_try=True, full_raise=False, max_depth=3,
-                 max_stmts=10, multi_handlers=True, names=None, exits=False, comps=True):
+                 max_stmts=10, multi_handlers=True, names=None, exits=False, comps=True, loop_exits_only=False):
         self.rng = rng
         self.site = 0
         self.allow_return = allow_return
@@ -62,6 +62,7 @@ class Gen(object):
         self.exits = exits          # C01: break / continue / raise anywhere
         self.loop_depth = 0
         self.comps = comps          # comprehension values (F59)
+        self.loop_exits_only = loop_exits_only   # C02X: return/break/continue, none under try-finally, no free raise
 
     def new(self):
         self.site += 1
@@ -106,13 +107,14 @@ class Gen(object):
                 return ('expr', self.reads(1, 2))
             if k < 0.30 and self.allow_return and not no_ret and not in_finally:
                 return ('return',)
-            if self.exits and k < 0.42:
-                opts = [('raise', self.rng.randrange(3))]
+            if self.exits and k < 0.42 and not (self.loop_exits_only and (no_ret or in_finally)):
+                opts = [] if self.loop_exits_only else [('raise', self.rng.randrange(3))]
                 if self.loop_depth > 0:
                     opts += [('break',), ('continue',), ('break',), ('continue',)]
                 if self.allow_return:
                     opts.append(('return',))
-                return self.rng.choice(opts)
+                if opts:
+                    return self.rng.choice(opts)
             forms = ['plain'] * 6 + ['ann', 'walrus', 'tuple', 'chain', 'star', 'def', 'class',
                                      'annp', 'tuplesub', 'lambdadef', 'decodef']
             if self.mods:
@@ -191,7 +193,7 @@ class Gen(object):
             return ('expr', self.reads(1, 2))
         # try
         has_final = self.rng.random() < 0.45
-        inner_no_ret = (no_ret or has_final) and not self.exits
+        inner_no_ret = (no_ret or has_final) and (not self.exits or self.loop_exits_only)
         body = self.body(depth + 1, in_finally, inner_no_ret)
         nh = self.rng.choice([1, 1, 2, 3]) if self.multi_handlers else 1
         if not has_final and self.rng.random() < 0.15:
@@ -212,7 +214,8 @@ class Gen(object):
                     hb = [('expr', [(self.new(), nm[1])])] + hb
             handlers.append((tyreads, nm, hb))
         orelse = self.body(depth + 1, in_finally, inner_no_ret, 1, 2) if self.rng.random() < 0.4 else [('pass',)]
-        final = self.body(depth + 1, not self.exits, not self.exits, 1, 2) if has_final else [('pass',)]
+        fin_strict = not self.exits or self.loop_exits_only
+        final = self.body(depth + 1, fin_strict, fin_strict, 1, 2) if has_final else [('pass',)]
         if self.full_raise:
             rf = rl = True
         else:
